@@ -42,11 +42,14 @@ def gen_hier(rng, n=None, mode=None):
 
 
 def discr_values(rng, n, root, mode):
+    """custom discriminator values; a root gets a FALSY value (0 / '') half of the time — Pony accepts them, and code that tests the value
+    for truth instead of `is not None` treats such a class as if it had no discriminator"""
     vals = []
+    falsy_root = rng.random() < 0.5
     for i in range(n):
         if mode == 'default': vals.append(None)
-        elif mode in ('str', 'strcol'): vals.append('k%d' % (i * 7 % 10) + 'x' * i)
-        elif mode == 'int': vals.append(10 * i + 3)
+        elif mode in ('str', 'strcol'): vals.append('' if falsy_root and root[i] == i else 'k%d' % (i * 7 % 10) + 'x' * i)
+        elif mode == 'int': vals.append(0 if falsy_root and root[i] == i else 10 * i + 3)
         else: vals.append(None if rng.random() < 0.5 else 'c%d' % i)
     return vals
 
@@ -98,12 +101,12 @@ def is_sub(h, j, i):
 
 
 def codes(E):
-    """integer codes for the discriminator values (equal values -> equal codes)"""
+    """integer codes for the discriminator values (equal values OF ONE HIERARCHY -> equal codes; every root has its own column and code2cls)"""
     m = {}
     out = []
     for e in E:
         v = e._discriminator_
-        out.append(m.setdefault(('v', v) if v is not None else ('none', e.__name__), len(m)))
+        out.append(m.setdefault(('v', e._root_.__name__, v) if v is not None else ('none', e.__name__), len(m)))
     return out, m
 
 
@@ -123,7 +126,7 @@ def hier_tie(ctx, h, E, reqs, checks):
         c = e._construct_discriminator_criteria_()
         if c is None: crit.append(None); parse.append(None); continue
         assert c[0] == 'IN' and c[1][0] == 'COLUMN' and c[1][2] == e._discriminator_attr_.column, c
-        crit.append(sorted(cmap[('v', v[1])] for v in c[2]))
+        crit.append(sorted(cmap[('v', e._root_.__name__, v[1])] for v in c[2]))
         parse.append(idx[e._discriminator_attr_.code2cls[e._discriminator_]])
     real['criteria'] = crit; real['parse'] = parse
     reqs.append({'op': 'hier', 'bases': h['bases'], 'discr': code})
@@ -136,6 +139,7 @@ def compare_hier(ctx, h, real, out):
     ctx.case(['hier', h['bases'], h['mode']], kind='tie:hier:%d-classes' % n)
     if any(len(b) > 1 for b in h['bases']): ctx.count('hier:multiple-inheritance')
     if len(set(h['root'])) > 1: ctx.count('hier:two-roots')
+    if any(v is not None and not v for v in h['vals']): ctx.count('hier:falsy-root-discriminator')
     ctx.count('hier:mode:' + h['mode'])
     model = {'allBases': [sorted(set(x)) for x in out['allBases']], 'subclasses': [sorted(set(x)) for x in out['subclasses']], 'isSub': out['isSub']}   # the code keeps sets
     for k in model:
@@ -237,14 +241,14 @@ def join_tie(ctx, h, E, H, reqs, checks):
 
 # ----------------------------------------------------------------------------------------------- tie: isinstance translation
 
-def isinstance_cond(q, cmap):
-    return isinstance_cond_one(q._translator.conditions[-1], cmap)
+def isinstance_cond(q, cmap, root_name):
+    return isinstance_cond_one(q._translator.conditions[-1], cmap, root_name)
 
 
-def isinstance_cond_one(c, cmap):
+def isinstance_cond_one(c, cmap, root_name):
     if c[0] == 'EQ' and c[1] == ['VALUE', 1] and c[2] == ['VALUE', 1]: return 'TRUE'
     if c[0] == 'EQ' and c[1] == ['VALUE', 0] and c[2] == ['VALUE', 1]: return 'FALSE'
-    if c[0] == 'IN': return sorted(cmap[('v', v[1])] for v in c[2])
+    if c[0] == 'IN': return sorted(cmap[('v', root_name, v[1])] for v in c[2])
     return ['unexpected', repr(c)[:200]]
 
 
@@ -400,6 +404,25 @@ class Checker:
             return False
         return True
 
+    def cached_lookup(self, how, pk, use_get):
+        """by-key lookups of an object that is ALREADY in the identity map — as a seed typed with the root (reached through a root-typed
+        reference of a loaded holder) or as a genuine loaded object — through EVERY class of its tree: the classes it is an instance of must
+        return it with its stored class, every other class must not find it (E[pk] raises ObjectNotFound, E.get(id=pk) is None)"""
+        h, E, H, w = self.h, self.E, self.H, self.w
+        r = w.cls[(0, pk)]
+        for c in [x for x in range(h['n']) if h['root'][x] == 0]:
+            det = [how, self.name(c), pk, 'get' if use_get else 'index', 'stored ' + self.name(r)]
+            self.ctx.case(['cached-lookup', h['bases'], h['mode'], [repr(v) for v in h['vals']]] + det, kind='oracle:cached-lookup:%s:%s' % (how, 'member' if is_sub(h, r, c) else 'non-member'))
+            try:
+                o = E[c].get(id=pk) if use_get else E[c][pk]
+                got = None if o is None else type(o).__name__
+            except ObjectNotFound:
+                got = 'ObjectNotFound'
+            exp = self.name(r) if is_sub(h, r, c) else (None if use_get else 'ObjectNotFound')
+            if got != exp:
+                self.fail('cached-lookup', 'looking an object that is already in the identity map (%s) up by key through %s gives %s; it is stored as %s'
+                          % ('known by primary key only' if how == 'seed' else 'loaded', self.name(c), got, self.name(r)), det, got, exp)
+
     def navigated_query(self, s, form, as_string):
         """isinstance(x, S) / aggregates where x is reached through a relationship of the holder; ground truth from the stored classes"""
         h, E, H, w = self.h, self.E, self.H, self.w
@@ -546,6 +569,15 @@ class Checker:
             o = E[c][pk] if rng.random() < 0.5 else E[c].get(id=pk)
             if o is None: self.fail(kind, 'E.get(id=pk) returns None for a stored object of a subclass', [self.name(c), pk], None, self.name(r))
             else: self.check_type(kind, o, 0, [self.name(c), pk])
+        elif kind == 'cached-lookup':
+            how = rng.choice(['seed', 'genuine'])
+            if how == 'seed':
+                hs = select('hh for hh in H', {'H': H})[:]
+                cands = sorted({v['mref'] for v in w.holders.values() if v['mref'] is not None})
+            else:
+                objs = select('x for x in C', {'C': E[0]})[:]
+                cands = sorted(pk for (rt, pk) in w.cls if rt == 0)
+            if cands: self.cached_lookup(how, rng.choice(cands), rng.random() < 0.5)
         elif kind == 'nested-subquery':
             s_ = rng.randrange(n)
             tree = [c for c in range(n) if h['root'][c] == h['root'][s_]]
@@ -592,6 +624,38 @@ NESTED_FORMS = {
 }
 
 
+def cached_lookup_sweep(ctx, h, db, E, H, w):
+    """every object of the first tree that a holder references (seed) and every object of the tree (genuine), looked up through every class"""
+    ck = Checker(ctx, h, db, E, H, w); ck.trace.append('cached-lookup-sweep')
+    seeds = sorted({v['mref'] for v in w.holders.values() if v['mref'] is not None})
+    everything = sorted(pk for (rt, pk) in w.cls if rt == 0)
+    k = 0
+    for how, pks in (('seed', seeds), ('genuine', everything)):
+        for pk in pks:
+            for use_get in (False, True):
+                k += 1
+                with db_session:        # a fresh session each time: the lookup through the first class must not have loaded the seed for the next one
+                    for c_first in [None]:
+                        if how == 'seed': select('hh for hh in H', {'H': H})[:]
+                        else: select('x for x in C', {'C': E[0]})[:]
+                        ck.step_call(lambda: ck.cached_lookup(how, pk, use_get), 'cached-lookup')
+    # and class by class in separate sessions for the seeds (the first lookup loads the seed)
+    for pk in seeds:
+        r = w.cls[(0, pk)]
+        for c in [x for x in range(h['n']) if h['root'][x] == 0]:
+            with db_session:
+                select('hh for hh in H', {'H': H})[:]
+                det = ['seed-first-lookup', ck.name(c), pk, 'stored ' + ck.name(r)]
+                ctx.case(['cached-lookup-first', h['bases'], h['mode'], [repr(v) for v in h['vals']]] + det, kind='oracle:cached-lookup:seed-first:%s' % ('member' if is_sub(h, r, c) else 'non-member'))
+                try:
+                    o = E[c][pk]; got = type(o).__name__
+                except ObjectNotFound: got = 'ObjectNotFound'
+                except Exception as e: got = 'raised ' + type(e).__name__
+                exp = ck.name(r) if is_sub(h, r, c) else 'ObjectNotFound'
+                if got != exp:
+                    ck.fail('cached-lookup', 'the first by-key lookup of an object known by primary key only, through %s, gives %s; it is stored as %s' % (ck.name(c), got, ck.name(r)), det, got, exp)
+
+
 def navigated_sweep(ctx, h, db, E, H, w):
     """every class of the first tree x every navigated form"""
     ck = Checker(ctx, h, db, E, H, w); ck.trace.append('navigated-sweep')
@@ -632,7 +696,7 @@ def isinstance_py(h, r, classes):
 
 STEPS = ['index', 'index', 'get-pk', 'get-attr', 'by-sql', 'get-by-sql', 'index-miss', 'select', 'select', 'select-filter', 'select-all-method',
          'ref', 'holder-first-ref', 'sub-ref', 'mref', 'mref', 'holder-first-mref', 'm2m-items', 'm2m-items-then-touch', 'o2m-items', 'query-ref', 'query-m2m', 'query-o2m',
-         'isinstance', 'isinstance', 'isinstance', 'nested-subquery', 'nested-subquery', 'query-tuple-ref', 'query-tuple-ref', 'seed-then-index', 'seed-then-index']
+         'isinstance', 'isinstance', 'isinstance', 'nested-subquery', 'nested-subquery', 'query-tuple-ref', 'query-tuple-ref', 'seed-then-index', 'seed-then-index', 'cached-lookup', 'cached-lookup']
 
 
 def one_world(ctx, h, reqs, checks):
@@ -662,6 +726,7 @@ def one_world(ctx, h, reqs, checks):
         isinstance_sweep(ctx, h, db, E, H, w, code, cmap, reqs, checks)
         nested_sweep(ctx, h, db, E, H, w)
         navigated_sweep(ctx, h, db, E, H, w)
+        cached_lookup_sweep(ctx, h, db, E, H, w)
         refine_tie(ctx, h, db, E, code, w, reqs, checks)
     finally:
         db.disconnect()
@@ -671,7 +736,7 @@ def register_isinstance(h, code, cmap, r, reqs, checks):
     """AST tie of one isinstance query (done on the un-negated form)"""
     if not r or r[3]: return
     _, c, classes, neg, q = r
-    cond = isinstance_cond(q, cmap)
+    cond = isinstance_cond(q, cmap, 'E%d' % h['root'][c])
     same = [x for x in range(h['n']) if h['root'][x] == h['root'][c]]
     reqs.append({'op': 'isinstance', 'bases': h['bases'], 'discr': code, 'entity': c, 'classes': classes, 'sameRoot': same})
     rows_py = [isinstance_py(h, r2, classes) for r2 in range(h['n'])]
